@@ -11,13 +11,15 @@
 (*   A1  array, rank 2, dims D11 (sampled, unit ms) and D12 (range, unit mV)*)
 (*   A2  array, rank 1, dim D21 (set with labels)                          *)
 (*   A3  array, rank 1, dim D31 (data-frame)                               *)
+(*   A4  array, rank 2, set dimension without labels followed by a labelled one *)
+(*   A5  array, rank 2, two range dimensions                                *)
 (*   T   tag referencing A1 (units for both dimensions), feature FT        *)
 (*   M   multi-tag with positions P, referencing A2, feature FM            *)
 (*   S   section with property PR                                          *)
 (***************************************************************************)
 EXTENDS NixCommon
 
-Entities == {"A1", "A2", "A3", "D11", "D12", "D21", "D31", "T", "M", "FT", "FM", "S", "PR", "B"}
+Entities == {"A1", "A2", "A3", "A4", "A5", "D11", "D12", "D21", "D31", "T", "M", "FT", "FM", "S", "PR", "B"}
 
 \* breach -> [hard?, entity that must carry the error]
 Rules == [
@@ -25,7 +27,10 @@ Rules == [
   ndims_extra2  |-> [hard |-> TRUE,  at |-> "A2"],
   nticks        |-> [hard |-> TRUE,  at |-> "A1"],   \* number of ticks differs from the data length
   nlabels       |-> [hard |-> TRUE,  at |-> "A2"],   \* number of labels differs from the data length
-  nrows         |-> [hard |-> TRUE,  at |-> "A3"],   \* number of data-frame rows differs from the data length
+  nrows         |-> [hard |-> TRUE,  at |-> "A3"],
+  nlabels_2nd   |-> [hard |-> TRUE,  at |-> "A4"],   \* label count wrong in the SECOND set dimension (the first has no labels)
+  nticks_2nd    |-> [hard |-> TRUE,  at |-> "A5"],   \* tick count wrong in the second range dimension (the first is fine)
+  nticks_1st    |-> [hard |-> TRUE,  at |-> "A5"],   \* number of data-frame rows differs from the data length
   unsorted      |-> [hard |-> TRUE,  at |-> "D12"],  \* ticks not ascending
   interval0     |-> [hard |-> TRUE,  at |-> "D11"],  \* sampling interval not positive
   tagunit1      |-> [hard |-> TRUE,  at |-> "T"],    \* tag unit of dimension 1 not convertible (dimension 2 fine)
